@@ -121,7 +121,7 @@ func makeConfigTimed(f func() string) (text string, blocked bool) {
 	case text = <-ch:
 		return text, false
 	case <-time.After(blockLimit):
-		blockLimit = 150 * time.Millisecond
+		blockLimit = 100 * time.Millisecond
 		return "", true
 	}
 }
